@@ -7,7 +7,7 @@ import (
 	lang "github.com/alligator/jqawk/src"
 )
 
-func debugAst(prog string, rootSelectors []string) {
+func debugAst(prog string, rootSelectors []string) error {
 	if len(rootSelectors) > 0 {
 		for i, rootSelector := range rootSelectors {
 			fmt.Printf("root selector %d ast\n", i)
@@ -15,7 +15,7 @@ func debugAst(prog string, rootSelectors []string) {
 			rsParser := lang.NewParser(&rsLex)
 			expr, err := rsParser.ParseExpression()
 			if err != nil {
-				panic(err)
+				return err
 			}
 			ast.Print(nil, expr)
 		}
@@ -25,26 +25,31 @@ func debugAst(prog string, rootSelectors []string) {
 	parser := lang.NewParser(&lex)
 	program, err := parser.Parse()
 	if err != nil {
-		panic(err)
+		return err
 	}
 	ast.Print(nil, program)
+	return nil
 }
 
-func debugLex(prog string, rootSelectors []string) {
-	dbg := func(prog string) {
+func debugLex(prog string, rootSelectors []string) error {
+	dbg := func(prog string) error {
 		lex := lang.NewLexer(prog)
 		line := 1
 		fmt.Print("   1: ")
 		for {
 			tok, err := lex.Next()
 			if err != nil {
-				panic(err)
+				return err
 			}
 
 			if tok.Tag == lang.Divide {
-				tok, err = lex.Regex()
-				if err != nil {
-					panic(err)
+				// without the parser there is no telling a division from the start
+				// of a regex: it is shown as a regex when one can be read from here
+				saved := lex
+				if regex, err := lex.Regex(); err == nil {
+					tok = regex
+				} else {
+					lex = saved
 				}
 			}
 
@@ -61,15 +66,18 @@ func debugLex(prog string, rootSelectors []string) {
 				break
 			}
 		}
+		return nil
 	}
 
 	if len(rootSelectors) > 0 {
 		for i, rootSelector := range rootSelectors {
 			fmt.Printf("root selector %d tokens\n", i)
-			dbg(rootSelector)
+			if err := dbg(rootSelector); err != nil {
+				return err
+			}
 			fmt.Print("\n")
 		}
 	}
 	fmt.Println("program tokens")
-	dbg(prog)
+	return dbg(prog)
 }
